@@ -28,6 +28,9 @@ type CancelDS struct {
 	// Jitter, when set, delays every read event by a pseudo-random duration so that the
 	// completion order of concurrent sub-problems varies from request to request.
 	Jitter func() time.Duration
+	// StrictCtx makes iterator reads fail with the context's error once the context is done, as the
+	// SQL backends do (the memory datastore's iterators never look at the context).
+	StrictCtx bool
 }
 
 func NewCancelDS(inner storage.OpenFGADatastore) *CancelDS { return &CancelDS{OpenFGADatastore: inner} }
@@ -108,6 +111,9 @@ func (d *CancelDS) ResetCensus() {
 
 func (i *cancelIter) Next(ctx context.Context) (*openfgav1.Tuple, error) {
 	i.d.hit()
+	if i.d.StrictCtx && ctx.Err() != nil {
+		return nil, ctx.Err()
+	}
 	t, err := i.TupleIterator.Next(ctx)
 	if errors.Is(err, storage.ErrIteratorDone) {
 		i.release()
